@@ -108,9 +108,25 @@ def _vec_of(e: ast.AST, pname: str, tname: str) -> bool:
     return t == (pname if attr is None else "%s.%s" % (pname, attr))
 
 
-def _classify_predicate(e: ast.AST, fi, ta, tb) -> Optional[str]:
-    """'par' / 'orth' applied to the two operands' direction vectors, else None"""
+def _classify_predicate(e: ast.AST, fi, ta, tb, tables=None, _depth=0) -> Optional[str]:
+    """'par' / 'orth' applied to the two operands' direction vectors, 'eq' for their plain equality, else None"""
     a, b = fi.params[:2]
+    # the sibling dispatcher applied to the two operands (`return parallel(b, a)` inside orthogonal): what the sibling's
+    # branch for those operand types computes
+    if tables and _depth < 3 and isinstance(e, ast.Call) and isinstance(e.func, ast.Name) and e.func.id in tables \
+            and len(e.args) == 2 and not e.keywords and sorted(txt(x) for x in e.args) == sorted((a, b)):
+        sfi, sdirect = tables[e.func.id]
+        ts = (ta, tb) if txt(e.args[0]) == a else (tb, ta)
+        r = sdirect.get(ts)
+        if r is None and (ts[1], ts[0]) in sdirect:
+            ts = (ts[1], ts[0])
+            r = sdirect[ts]
+        if r is not None and sfi is not fi:
+            return _classify_predicate(r.value, sfi, ts[0], ts[1], tables, _depth + 1)
+    if isinstance(e, ast.Compare) and len(e.ops) == 1 and isinstance(e.ops[0], (ast.Eq, ast.NotEq)):
+        u, v = e.left, e.comparators[0]
+        if (_vec_of(u, a, ta) and _vec_of(v, b, tb)) or (_vec_of(u, b, tb) and _vec_of(v, a, ta)):
+            return "eq"
     if isinstance(e, ast.Call) and isinstance(e.func, ast.Attribute) and e.func.attr in ("parallel", "orthogonal") and len(e.args) == 1:
         u, v = e.func.value, e.args[0]
         if (_vec_of(u, a, ta) and _vec_of(v, b, tb)) or (_vec_of(u, b, tb) and _vec_of(v, a, ta)):
@@ -124,7 +140,7 @@ def _classify_predicate(e: ast.AST, fi, ta, tb) -> Optional[str]:
     return None
 
 
-def r113_predicates(ctx, res, fname, want_same, fi, direct):
+def r113_predicates(ctx, res, fname, want_same, fi, direct, tables=None):
     for (ta0, tb0), r in sorted(direct.items()):
         ta, tb = ctx.cache.get("c11.types_at_return", {}).get((fname, ta0, tb0), (ta0, tb0))
         if ta not in KIND or tb not in KIND:
@@ -132,8 +148,15 @@ def r113_predicates(ctx, res, fname, want_same, fi, direct):
         same = KIND[ta][1] == KIND[tb][1]
         want = want_same if same else ("orth" if want_same == "par" else "par")
         ud = _unpack_defs(ctx, fi, ta0, tb0)
-        got = _classify_predicate(_resolve_local(fi, r.value, ud), fi, ta, tb)
+        got = _classify_predicate(_resolve_local(fi, r.value, ud), fi, ta, tb, tables)
         lab = "%s(%s, %s)" % (fname, ta, tb)
+        if got == "eq":
+            res.ob("R11.3", fi.where(r), lab, False, "decided by equality of the direction vectors")
+            res.violation("R11.3", fi, r,
+                          "%s compares the two direction vectors with `%s`: equal vectors are one representation among many of the "
+                          "same direction (opposite or rescaled vectors denote parallel objects too); use the vector predicate"
+                          % (lab, txt(r.value)[:40]), construct=lab + " decided by vector equality")
+            continue
         if got is None:
             ex = _resolve_local(fi, r.value, ud)
             via_angle = [c for c in ast.walk(ex) if isinstance(c, ast.Call) and (
@@ -499,9 +522,10 @@ def run(ctx, res):
         "exactly when the angle is 0 is tolerance numerics and NOT decided."
     )
     n = 0
+    tables = {fname: r111(ctx, res, fname) for fname in ("parallel", "orthogonal")}
     for fname, want in (("parallel", "par"), ("orthogonal", "orth")):
-        fi, direct = r111(ctx, res, fname)
-        r113_predicates(ctx, res, fname, want, fi, direct)
+        fi, direct = tables[fname]
+        r113_predicates(ctx, res, fname, want, fi, direct, tables)
         n += len(direct)
     fi, direct = r111(ctx, res, "angle")
     r112_r113_angle(ctx, res, fi, direct)
@@ -513,4 +537,45 @@ def run(ctx, res):
             k += check_acos(ctx, res, f, "R11.4")
     ctx.require(res, "R11.4", k, 1, "acos/asin sites")
     r115(ctx, res)
+    # R11.6 every decision reached from the three functions on the documented operand pairs is tolerant (R-EXACT)
+    from ..exact import report_exact
+    eng = ctx.types
+    roots = [(ctx.repo.fn(f_, "calc.angle"), (S(ta), S(tb))) for f_ in ("parallel", "orthogonal", "angle") for ta, tb in PAIRS]
+    reached = eng.reached_from(roots)
+    fns = [f_ for f_ in ctx.repo.functions(include_visualization=False) if f_.qual in reached]
+    k6 = report_exact(ctx, res, "R11.6", fns, "angle / parallel / orthogonal")
+    ctx.require(res, "R11.6", k6, 10, "decision atoms reached from angle / parallel / orthogonal")
+    # R11.7 scale freedom: angle / parallel / orthogonal do not change when all coordinates are scaled (degree 0)
+    from .c06 import Degree, Z
+    dg = Degree(ctx)
+    n7 = 0
+    for f_ in ("parallel", "orthogonal", "angle"):
+        fi_ = ctx.repo.fn(f_, "calc.angle")
+        for ta, tb in PAIRS:
+            if "Vector" in (ta, tb):
+                continue
+            r = dg.fn_degree(fi_, (("o", ta), ("o", tb)))
+            got = r[1] if r is not None and r[0] == "s" else None
+            if got is None:
+                if dg.errors:
+                    continue
+                raise AnalysisError("%s: the homogeneity degree of %s(%s, %s) cannot be determined" % (fi_.where(), f_, ta, tb))
+            n7 += 1
+            ok = got == 0 or got == Z
+            res.ob("R11.7", fi_.where(), "%s(%s, %s) has degree 0" % (f_, ta, tb), ok, "degree %s under scaling of all coordinates" % got)
+            if not ok:
+                res.violation("R11.7", fi_, fi_.node, "%s(%s, %s) scales like k^%s under scaling all coordinates by k; an angle / a direction "
+                              "predicate must not depend on the scale (a missing normalisation)" % (f_, ta, tb, got),
+                              construct="%s(%s, %s) degree" % (f_, ta, tb))
+    seen7 = set()
+    for g_, node, msg in dg.errors:
+        k_ = (g_.qual, txt(node), msg)
+        if k_ in seen7:
+            continue
+        seen7.add(k_)
+        res.ob("R11.7", g_.where(node), "%s: `%s`" % (g_.short, txt(node)[:50]), False, msg)
+        res.violation("R11.7", g_, node, "dimensionally inconsistent expression in %s: %s" % (g_.short, msg),
+                      construct="%s: inhomogeneous `%s`" % (g_.short, txt(node)[:60]))
+    if not dg.errors:
+        ctx.require(res, "R11.7", n7, 12, "operand pairs with a degree")
     res.undecided_ob("parallel/orthogonal are True exactly when the angle is 0 / pi/2 (tolerance numerics); accuracy near the ends of the range")
